@@ -73,7 +73,12 @@ Definition record (k clk : Z) (meas : Z -> option Z) (st : storage) : storage :=
     (fun a => match meas a with Some v => Some (agg_new k clk v) | None => st_cum st a end)
     (fun a => match meas a with
               | Some v => Some (match st_cum st a with
-                                | Some prev => diff k prev (agg_new k clk v)
+                                | Some prev =>
+                                    (* the difference is folded into a pending entry of the same collection (fix 93457c3) *)
+                                    match st_delta st a with
+                                    | Some pending => merge k pending (diff k prev (agg_new k clk v))
+                                    | None => diff k prev (agg_new k clk v)
+                                    end
                                 | None => agg_new k clk v
                                 end)
               | None => st_delta st a
